@@ -1722,6 +1722,29 @@ impl<'a> World<'a> {
         }
     }
 
+    /// C10: a client waiting at the listener is accepted or turned away by the polls that follow,
+    /// whatever the application still owes to other connections (it answers nothing here).
+    pub fn pending_connection_probe(&mut self) {
+        if self.pending_accept.is_empty() {
+            return;
+        }
+        let mut polls = 0;
+        while self.epoll_readable() && polls < 4 && self.violation.is_none() {
+            self.poll(0);
+            polls += 1;
+        }
+        if self.violation.is_some() || polls == 0 {
+            return;
+        }
+        for i in 0..self.clients.len() {
+            let c = &self.clients[i];
+            if c.connected && !c.closed && !(c.shut_rd && c.shut_wr) && !c.accepted && !c.refused {
+                let d = format!("client {} is connected and waiting at the listener; after {} further polls (the application answering nothing meanwhile) the server has neither accepted it nor turned it away ({} connections open, server table {:?}; interest {})", i, polls, self.server_table().len(), self.server_table().iter().map(|e| (e.0, e.1, e.2)).collect::<Vec<_>>(), self.interest_masks());
+                return self.fail("pending-connection-ignored", d);
+            }
+        }
+    }
+
     /// C08 closure.
     pub fn closure_all(&mut self) {
         let roles = [Role::WellBehaved, Role::Filler];
@@ -2176,6 +2199,16 @@ impl SrvCfg {
             w.release_check();
             if let Some(v) = w.violation.take() {
                 let mut st = vec![json!({"probe": "release_check"})];
+                st.extend(w.steps.drain(n0..));
+                return (Some(v), st);
+            }
+        }
+        if self.release_check && self.property == "C10" {
+            let mut w = self.execute(path, tracing, self.kill_switch);
+            let n0 = w.steps.len();
+            w.pending_connection_probe();
+            if let Some(v) = w.violation.take() {
+                let mut st = vec![json!({"probe": "pending_connection_probe"})];
                 st.extend(w.steps.drain(n0..));
                 return (Some(v), st);
             }
